@@ -200,6 +200,11 @@ def merge_states(c, a: State | None, b: State | None) -> State | None:
         vb = b.env.get(k, ("undef", k))
         out.env[k] = mk_cond(c, va, vb)
     for k in set(a.ext) | set(b.ext):
+        if isinstance(k[0], tuple) and k[0] and k[0][0] == "ref" and (k not in a.ext or k not in b.ext):
+            # an attribute of a heap object set on one path only (typically the object is created there): where it can be
+            # read at all it has that value
+            out.ext[k] = a.ext[k] if k in a.ext else b.ext[k]
+            continue
         va = a.ext.get(k, ("attr", k[0], k[1]))
         vb = b.ext.get(k, ("attr", k[0], k[1]))
         out.ext[k] = mk_cond(c, va, vb)
@@ -712,8 +717,25 @@ class Interp:
             right = self.ev(st, c, tree)
             parts.append(("cmp", type(op).__name__, left, right))
             left = right
-        if len(parts) == 1:
-            p = parts[0]
+        if len(parts) > 1:
+            # a chain ``a < b <= c`` is the conjunction of its links, each evaluated like a single comparison
+            vals = []
+            for p in parts:
+                v = self._compare1(p)
+                if is_const(v):
+                    if not v[1]:
+                        return FALSE
+                    continue
+                vals.append(v)
+            if not vals:
+                return TRUE
+            if len(vals) == 1:
+                return vals[0]
+            return self._demorgan("and", tuple(vals))
+        return self._compare1(parts[0])
+
+    def _compare1(self, p):
+        if True:
             if is_const(p[2]) and is_const(p[3]) and p[1] in ("Lt", "Gt", "LtE", "GtE", "Eq", "NotEq", "Is", "IsNot"):
                 a, b = p[2][1], p[3][1]
                 try:
@@ -764,7 +786,6 @@ class Interp:
                     r = ("bool", "or", tuple(("cmp", "Eq", p[2], e[0]) for e in o.entries)) if len(o.entries) > 1 else ("cmp", "Eq", p[2], o.entries[0][0])
                     return r if p[1] == "In" else mk_not(r)
             return self._canon_cmp(p)
-        return self._demorgan("and", tuple(self._canon_cmp(p) for p in parts))
 
     @staticmethod
     def _canon_cmp(p):
@@ -821,6 +842,58 @@ class Interp:
         keep = [v for v in vals if not is_const(v, False if is_or else True)]
         if not keep:
             return const(False if is_or else True)
+        if len(keep) == 1:
+            return keep[0]
+        return self._demorgan("or" if is_or else "and", tuple(keep))
+
+    def _ev_quantifier(self, st, n, tree):
+        """``any(f(x) for x in TABLE)`` / ``all(...)`` over a small constant table: f(t1) or f(t2) or ..., evaluated left to
+        right with the later ones only when the earlier did not decide (what the lazy generator does)."""
+        comp = n.args[0]
+        g = comp.generators[0]
+        probe: list = []
+        it = self.ev(st.fork(), g.iter, probe)
+        if not self._effect_free(probe):
+            return None
+        elems = self._unroll_elems(it)
+        if elems is None or not (0 < len(elems) <= 16):
+            return None
+        is_or = n.func.id == "any"
+        self.ev(st, g.iter, tree)
+        vals = []
+        cur = None
+        for el in elems:
+            def one(s_, t_, el=el):
+                self.bind_target(s_, g.target, el)
+                return self.ev(s_, comp.elt, t_)
+            if cur is None:
+                saved = {k: st.env.get(k) for k in self._assigned_names([ast.Expr(value=g.target)])}
+                v = one(st, tree)
+                for k, old_ in saved.items():       # comprehension variables do not leak
+                    if old_ is None:
+                        st.env.pop(k, None)
+                    else:
+                        st.env[k] = old_
+            else:
+                guard = mk_not(cur) if is_or else cur
+                v, sub, f2 = self._branch(st, guard, one)
+                for k in self._assigned_names([ast.Expr(value=g.target)]):
+                    if k in st.env:
+                        f2.env[k] = st.env[k]
+                    else:
+                        f2.env.pop(k, None)
+                self._absorb(st, guard, f2, sub, tree, getattr(comp, "lineno", None))
+            vals.append(v)
+            cur = v if len(vals) == 1 else ("bool", "or" if is_or else "and", tuple(vals))
+        for i, v in enumerate(vals):
+            if is_const(v) and bool(v[1]) == is_or:
+                vals = vals[: i + 1]
+                if i == 0:
+                    return const(is_or)
+                break
+        keep = [v for v in vals if not is_const(v, False if is_or else True)]
+        if not keep:
+            return const(not is_or)
         if len(keep) == 1:
             return keep[0]
         return self._demorgan("or" if is_or else "and", tuple(keep))
@@ -1000,6 +1073,12 @@ class Interp:
             if cls is not None and owner is not None:
                 return ("super", cls.qualname, owner.qualname, selft)
             return ("opaque", "super()")
+        if isinstance(n.func, ast.Name) and n.func.id in ("any", "all") and len(n.args) == 1 and not n.keywords \
+                and isinstance(n.args[0], (ast.GeneratorExp, ast.ListComp)) and len(n.args[0].generators) == 1 and not n.args[0].generators[0].ifs \
+                and n.func.id not in st.env:
+            r = self._ev_quantifier(st, n, tree)
+            if r is not None:
+                return r
         f = self.ev(st, n.func, tree)
         args = []
         for a in n.args:
